@@ -85,6 +85,7 @@ type structInfo struct {
 var structInfos = map[string]*structInfo{}
 
 func typeKey(t types.Type) string {
+	t = types.Unalias(t)
 	return types.TypeString(t, func(p *types.Package) string { return p.Path() })
 }
 
@@ -161,11 +162,17 @@ func aliasSort(name string) Sort {
 
 func structDT(t types.Type) *structInfo {
 	key := typeKey(t)
+	if opaqueStrings {
+		key = "opaque:" + key
+	}
 	if si, ok := structInfos[key]; ok {
 		return si
 	}
 	st := t.Underlying().(*types.Struct)
 	name := "S_" + shortTypeName(t)
+	if opaqueStrings {
+		name = "SO_" + shortTypeName(t)
+	}
 	if len(name) > 60 {
 		name = fmt.Sprintf("%s_%d", name[:40], len(structInfos))
 	}
